@@ -2065,6 +2065,12 @@ def m_str_len(ex, st, a, c, m):
         st.pc.append(fact)
     if z3.is_app(s_) and s_.decl().name() == 'uuid_hyph':
         st.pc.append(f_strlen(s_) == 36)
+    else:
+        # texts Uuid::parse_str accepts: simple (32), hyphenated (36), braced (38), urn (45); the canonical text is hyphenated
+        uf = z3.And(z3.Implies(f_uuid_ok(s_), z3.Or(f_strlen(s_) == 32, f_strlen(s_) == 36, f_strlen(s_) == 38, f_strlen(s_) == 45)),
+                    z3.Implies(z3.And(f_uuid_ok(s_), f_uuid_hyph(s_) == s_), f_strlen(s_) == 36))
+        if not any(z3.eq(uf, p_) for p_ in st.pc):
+            st.pc.append(uf)
     return [(True, f_strlen(s_))]
 
 
